@@ -26,7 +26,7 @@ struct RZ {
     int damaged() const { int c = 0; for (int i = 0; i < GUARD; i++) { if (buf[i] != PAT + (uint32_t)i) c++; if (buf[GUARD + n + i] != PAT + (uint32_t)(GUARD + n + i)) c++; } return c; }
     std::vector<uint32_t> get() const { std::vector<uint32_t> v(n + 1); for (int i = 0; i < n; i++) v[i] = (uint32_t)s->a[i]; v[n] = (uint32_t)s->b; return v; }
 };
-static const char* LF[] = {"clear", "copy", "negate", "trivial", "addto", "subto", "addmulto", "submulto", "subto_alias", "addto_alias"};
+static const char* LF[] = {"clear", "copy", "negate", "trivial", "addto", "subto", "addmulto", "submulto", "subto_alias", "addto_alias", "negate_alias", "copy_alias"};
 static long var_int(double v) { return (v >= 0 && v < 2147483000.0 && v == (double)(long)v) ? (long)v : -1; }
 static void lwe_ops(int n, uint32_t p, VhRng& rng, int flavour) {
     LweParams* par = new_LweParams(n, 0., 1.);
@@ -37,7 +37,7 @@ static void lwe_ops(int n, uint32_t p, VhRng& rng, int flavour) {
     for (int i = 0; i <= n; i++) { r0[i] = flavour ? EXT[rng.below(8)] : rng.u32(); s[i] = flavour == 1 ? EXT[rng.below(8)] : rng.u32(); }
     uint32_t mu = rng.u32();
     int32_t ps = ((int32_t)p > -32768 && (int32_t)p < 32768) ? (int32_t)p : 0;
-    for (int f = 0; f < 10; f++) {
+    for (int f = 0; f < 12; f++) {
         RZ R(par), S(par);
         R.set(r0); S.set(s);
         R.s->current_variance = 7.; S.s->current_variance = 1.;
@@ -46,7 +46,8 @@ static void lwe_ops(int n, uint32_t p, VhRng& rng, int flavour) {
             case 0: lweClear(R.s, par); break; case 1: lweCopy(R.s, S.s, par); break; case 2: lweNegate(R.s, S.s, par); break;
             case 3: lweNoiselessTrivial(R.s, (Torus32)mu, par); break; case 4: lweAddTo(R.s, S.s, par); break; case 5: lweSubTo(R.s, S.s, par); break;
             case 6: lweAddMulTo(R.s, (int32_t)p, S.s, par); break; case 7: lweSubMulTo(R.s, (int32_t)p, S.s, par); break;
-            case 8: lweSubTo(R.s, R.s, par); break; default: lweAddTo(R.s, R.s, par); }
+            case 8: lweSubTo(R.s, R.s, par); break; case 9: lweAddTo(R.s, R.s, par); break;
+            case 10: lweNegate(R.s, R.s, par); break; default: lweCopy(R.s, R.s, par); }           // result is the operand itself (what bootsNOT(x, x) / bootsCOPY(x, x) do)
         Torus32 ph2 = lwePhase(R.s, key);
         std::vector<uint32_t> out = R.get();
         uint32_t ph[3] = {(uint32_t)ph0, (uint32_t)ph1, (uint32_t)ph2};
@@ -67,7 +68,8 @@ static void tlwe_ops(int N, int k, uint32_t p, VhRng& rng, int flavour) {
     for (size_t i = 0; i < r0.size(); i++) { r0[i] = flavour ? EXT[rng.below(8)] : rng.u32(); s[i] = flavour ? EXT[rng.below(8)] : rng.u32(); }
     for (int j = 0; j < N; j++) { muv[j] = rng.u32(); mu->coefsT[j] = (Torus32)muv[j]; }
     int32_t ps = ((int32_t)p > -32768 && (int32_t)p < 32768) ? (int32_t)p : 0;
-    int a = rng.below(2 * N), pos = rng.below(k + 1);
+    static int call = 0; int edges[8] = {0, N, 2 * N - 1, 1, N - 1, N + 1, 0, N};
+    int a = call < 8 || rng.below(4) == 0 ? edges[call % 8] : (int)rng.below(2 * N), pos = rng.below(k + 1); call++;      // exponents exactly 0, N, 2N-1, ... first
     for (int f = 0; f < 10; f++) {
         set_tlwe(R, N, k, r0); set_tlwe(S, N, k, s); R->current_variance = 7.; S->current_variance = 1.;
         switch (f) {
